@@ -7,7 +7,7 @@ ID = "C08"
 LEVEL = "exploration"
 N = {"quick": 600, "thorough": 5000}
 RULE = ("cases = pairs of contracts whose union interface is well formed (shared inputs, shared outputs, disjoint, both) or ill formed "
-        "(an input of one is an output of the other), with duplicated / scaled / mutually implied / nearly parallel (one coefficient off by 2e-6..5e-6) terms across the two, infeasible "
+        "(an input of one is an output of the other), with duplicated / scaled / mutually implied / nearly parallel (one coefficient off by 2e-6..5e-6) / look-alike (one coefficient different) terms across the two, infeasible "
         "conjunctions, both operand orders; oracle: interface = unions, A_M <=> A1&A2, A_M&G_M <=> A1&A2&G1&G2, merge(a,b) equivalent to "
         "merge(b,a), ValueError only if A1&A2&G1&G2 is infeasible, IncompatibleArgsError iff the union interface is ill formed; "
         "non-trivial = merge returned and both operands have at least one term; distinct = SHA-1 of the case")
@@ -31,7 +31,7 @@ def _case(draw):
     w = draw(gens.witness_s(names))
     c1 = draw(gens.wild_contract_s(i1, o1, w, na=(0, 2), ng=(1, 3)))
     c2 = draw(gens.wild_contract_s(i2, o2, w, na=(0, 2), ng=(1, 3)))
-    overlap = draw(st.sampled_from(["none", "dup", "scaled", "implied", "infeasible", "near"]))
+    overlap = draw(st.sampled_from(["none", "dup", "scaled", "implied", "infeasible", "near", "lookalike"]))
     common = [v for v in i1 + o1 if v in i2 + o2]
     if overlap != "none" and common:
         src_pool = [t for t in c1["g"] if set(t[0]) <= set(i2 + o2)]
@@ -42,6 +42,11 @@ def _case(draw):
             elif overlap == "scaled":
                 f = draw(st.sampled_from([2, 0.5, 3]))
                 c2["g"].append([{k: v * f for k, v in t[0].items()}, t[1] * f])
+            elif overlap == "lookalike":
+                # same variables and constant, one coefficient clearly different (any position): another constraint, not a duplicate
+                k = draw(st.sampled_from(sorted(t[0])))
+                nv = t[0][k] + draw(st.sampled_from([1, -1, 2, 0.5]))
+                c2["g"].append([{n: ((nv or 3.0) if n == k else v) for n, v in t[0].items()}, t[1]])
             elif overlap == "near":
                 # almost the same direction (relative 2e-6..5e-6 on one coefficient): neither implies the other inside the box
                 k = draw(st.sampled_from(sorted(t[0])))
